@@ -302,11 +302,10 @@ theorem two_outputs {T} {ms : Mid} (hc : Ctx T ms.base) (hI : Inv T ms) {i1 i2 :
 
 theorem stepRes2_spec {T} {ms ms' : Mid} (hc : Ctx T ms.base) (hI : Inv T ms) {r : Resolution2} {R : List (Kind × Id)}
     (hl : LiveFc2 T ms r.parent) (hF : Fresh T ms (r.created ++ R)) (hnew : resNewOk r)
-    (h : stepRes2 ms r = .ok ms') :
+    (hmh : r.parent.fc.missedHost ≤ r.parent.fc.host.value) (h : stepRes2 ms r = .ok ms') :
     Inv T ms' ∧ Agree ms ms' (fun x => x = r.parent.id ∨ x ∈ r.created.map (·.2)) ∧ Fresh T ms' R ∧
     Phi ms' + resOut r = Phi ms + resIn r ∧ sfTot ms' = sfTot ms ∧ ms'.pool = ms.pool + resTax r ∧
     ms'.base = ms.base ∧ ∀ w : ScElem → Nat, scW w ms ≤ scW w ms' := by
-  have hmh := hc.fc2_missed r.parent hl.2.1
   unfold stepRes2 at h
   unfold Resolution2.created at hF ⊢
   unfold resOut resIn resTax
@@ -317,7 +316,7 @@ theorem stepRes2_spec {T} {ms ms' : Mid} (hc : Ctx T ms.base) (hI : Inv T ms) {r
     rw [bind_eq_ok] at h; obtain ⟨ms1, h1, h⟩ := h
     rw [bind_eq_ok] at h; obtain ⟨ms2, h2, h⟩ := h
     cases h
-    obtain ⟨hI1, hA1, hP1, hS1, hp1, hb1⟩ := resolveFc2_spec hc hI hl h1
+    obtain ⟨hI1, hA1, hP1, hS1, hp1, hb1⟩ := resolveFc2_spec hc hI hl hmh h1
     have hF1 := hF.agree hA1 (fun q hq => hl.not_fresh hF q hq)
     simp only [List.cons_append, List.nil_append] at hF1
     obtain ⟨hI2, hA2, hF2, hP2, hS2, hp2, hb2⟩ := createFc2_spec (hb1 ▸ hc) hI1 hF1 hnew h2
@@ -338,7 +337,7 @@ theorem stepRes2_spec {T} {ms ms' : Mid} (hc : Ctx T ms.base) (hI : Inv T ms) {r
     rw [hres] at h hF; simp only [] at h hF ⊢
     rw [bind_eq_ok] at h; obtain ⟨ms1, h1, h⟩ := h
     cases h
-    obtain ⟨hI1, hA1, hP1, hS1, hp1, hb1⟩ := resolveFc2_spec hc hI hl h1
+    obtain ⟨hI1, hA1, hP1, hS1, hp1, hb1⟩ := resolveFc2_spec hc hI hl hmh h1
     have hF1 := hF.agree hA1 (fun q hq => hl.not_fresh hF q hq)
     simp only [List.cons_append, List.nil_append] at hF1
     obtain ⟨hI3, hA3, hF3, hP3, hS3, hp3, hb3, hw3⟩ := two_outputs (hb1 ▸ hc) hI1 hF1 r.parent.fc.renter r.parent.fc.host
@@ -354,7 +353,7 @@ theorem stepRes2_spec {T} {ms ms' : Mid} (hc : Ctx T ms.base) (hI : Inv T ms) {r
     rw [hres] at h hF; simp only [] at h hF ⊢
     rw [bind_eq_ok] at h; obtain ⟨ms1, h1, h⟩ := h
     cases h
-    obtain ⟨hI1, hA1, hP1, hS1, hp1, hb1⟩ := resolveFc2_spec hc hI hl h1
+    obtain ⟨hI1, hA1, hP1, hS1, hp1, hb1⟩ := resolveFc2_spec hc hI hl hmh h1
     have hF1 := hF.agree hA1 (fun q hq => hl.not_fresh hF q hq)
     simp only [List.cons_append, List.nil_append] at hF1
     obtain ⟨hI3, hA3, hF3, hP3, hS3, hp3, hb3, hw3⟩ := two_outputs (hb1 ▸ hc) hI1 hF1 r.parent.fc.renter
@@ -372,7 +371,8 @@ theorem stepRes2_spec {T} {ms ms' : Mid} (hc : Ctx T ms.base) (hI : Inv T ms) {r
     · rw [hp3, hp1]; rfl
 
 theorem loop_ress2 {T} (l : List Resolution2) : ∀ (ms ms' : Mid) (R : List (Kind × Id)), Ctx T ms.base → Inv T ms →
-    (∀ r ∈ l, LiveFc2 T ms r.parent ∧ resNewOk r) → (l.map (·.parent.id)).Nodup →
+    (∀ r ∈ l, LiveFc2 T ms r.parent ∧ resNewOk r ∧ r.parent.fc.missedHost ≤ r.parent.fc.host.value) →
+    (l.map (·.parent.id)).Nodup →
     Fresh T ms (l.flatMap Resolution2.created ++ R) →
     l.foldlM stepRes2 ms = .ok ms' →
     Reached T ms ms' (fun x => x ∈ l.map (·.parent.id) ∨ x ∈ (l.flatMap Resolution2.created).map (·.2)) ∧
@@ -389,9 +389,9 @@ theorem loop_ress2 {T} (l : List Resolution2) : ∀ (ms ms' : Mid) (R : List (Ki
     rw [List.foldlM_cons, bind_eq_ok] at h
     obtain ⟨ms1, h1, h2⟩ := h
     simp only [List.map_cons, List.nodup_cons, List.flatMap_cons, List.append_assoc] at hn hF
-    obtain ⟨hla, hna⟩ := hs a List.mem_cons_self
-    obtain ⟨hI1, hA1, hF1, hP1, hS1, hp1, hb1, hw1⟩ := stepRes2_spec hc hI hla hF hna h1
-    have hs1 : ∀ r ∈ l, LiveFc2 T ms1 r.parent ∧ resNewOk r := by
+    obtain ⟨hla, hna, hma⟩ := hs a List.mem_cons_self
+    obtain ⟨hI1, hA1, hF1, hP1, hS1, hp1, hb1, hw1⟩ := stepRes2_spec hc hI hla hF hna hma h1
+    have hs1 : ∀ r ∈ l, LiveFc2 T ms1 r.parent ∧ resNewOk r ∧ r.parent.fc.missedHost ≤ r.parent.fc.host.value := by
       intro r hr
       obtain ⟨h1, h2⟩ := hs r (List.mem_cons_of_mem _ hr)
       refine ⟨h1.agree hA1 ?_, h2⟩
